@@ -6,5 +6,7 @@ CONSTANTS
   Monotone = FALSE
   Ticks = TRUE
   IdleRec = TRUE
+  Cap = 1
+  Eager = FALSE
 INVARIANTS TypeOK Inv_Pending Inv_ParkedNext Inv_C01_HTTP
 VIEW View
